@@ -146,6 +146,15 @@ func (w *world) sentinel(tag string) string {
 	return fmt.Sprintf("SENT-%s-%x", tag, vh.Bytes(w.seed, "sentinel-"+tag, 0, 8))
 }
 
+// tinySettings keeps the cost of (re)opening a database low: the defaults pre-allocate tens of megabytes per open.
+func tinySettings() *schema.DatabaseNullableSettings {
+	u := func(v uint32) *schema.NullableUint32 { return &schema.NullableUint32{Value: v} }
+	return &schema.DatabaseNullableSettings{MaxKeyLen: u(256), MaxValueLen: u(4096), MaxTxEntries: u(64), MaxConcurrency: u(3), MaxIOConcurrency: u(1),
+		ReadTxPoolSize: u(2), TxLogCacheSize: u(8), WriteBufferSize: u(1 << 16), FileSize: u(1 << 20),
+		AhtSettings: &schema.AHTNullableSettings{SyncThreshold: u(64), WriteBufferSize: u(1 << 16)}, MaxActiveTransactions: u(16), VLogCacheSize: u(8),
+		IndexSettings: &schema.IndexNullableSettings{CacheSize: u(64), MaxActiveSnapshots: u(8), FlushBufferSize: u(1 << 16), CommitLogMaxOpenedFiles: u(2), NodesLogMaxOpenedFiles: u(2), HistoryLogMaxOpenedFiles: u(2)}}
+}
+
 func classOfDB(name string) string {
 	switch name {
 	case dbOwn:
@@ -162,7 +171,7 @@ func (w *world) setup() {
 	w.openAdmin(dbDef)
 	w.openAdmin(dbSys)
 	for _, db := range []string{dbOwn, dbOther} {
-		w.mustAdmin(dbDef, "CreateDatabaseV2", &schema.CreateDatabaseRequest{Name: db}, &schema.CreateDatabaseResponse{})
+		w.mustAdmin(dbDef, "CreateDatabaseV2", &schema.CreateDatabaseRequest{Name: db, Settings: tinySettings()}, &schema.CreateDatabaseResponse{})
 	}
 	for _, db := range []string{dbOwn, dbOther, dbDef} {
 		w.fixtureContent(db)
@@ -284,7 +293,8 @@ func (w *world) ensureDocFixture(db string) {
 	}
 }
 
-// ensureDatabases repairs dbOwn / dbOther after a life-cycle RPC succeeded (reload, or recreate with the fixture).
+// ensureDatabases repairs dbOwn / dbOther after a life-cycle RPC succeeded: reload, or (deleted) create a successor
+// with the fixture and give every fixture user the permission it had on the deleted one.
 func (w *world) ensureDatabases() {
 	var l schema.DatabaseListResponseV2
 	vh.Must(w.adminRead(dbDef, "/immudb.schema.ImmuService/DatabaseListV2", &schema.DatabaseListRequestV2{}, &l), "DatabaseListV2")
@@ -292,16 +302,30 @@ func (w *world) ensureDatabases() {
 	for _, d := range l.Databases {
 		st[d.Name] = d
 	}
-	for _, db := range []string{dbOwn, dbOther} {
+	for _, which := range []*string{&dbOwn, &dbOther} {
+		db := *which
 		d, ok := st[db]
 		switch {
 		case !ok:
-			w.mustAdmin(dbDef, "CreateDatabaseV2", &schema.CreateDatabaseRequest{Name: db}, &schema.CreateDatabaseResponse{})
-			fx.mu.Lock()
-			delete(w.adm, db)
-			fx.mu.Unlock()
+			dbGen++
+			old := db
+			db = fmt.Sprintf("%sg%d", strings.TrimRight(old, "0123456789g"), dbGen)
+			*which = db
+			w.mustAdmin(dbDef, "CreateDatabaseV2", &schema.CreateDatabaseRequest{Name: db, Settings: tinySettings()}, &schema.CreateDatabaseResponse{})
 			w.fixtureContent(db)
-			w.res.Count("fixture-database-recreated", 1)
+			grant := func(user string, p uint32) {
+				w.mustAdmin(dbDef, "ChangePermission", &schema.ChangePermissionRequest{Action: schema.PermissionAction_GRANT, Username: user, Database: db, Permission: p}, &emptypb.Empty{})
+			}
+			if which == &dbOwn {
+				for _, role := range []string{"R", "RW", "Admin"} {
+					grant(w.users[role].name, permCode[role])
+				}
+				grant(w.victim, 1)
+				grant(w.victimA, 1)
+			} else {
+				grant(w.victim, 1)
+			}
+			w.res.Count("fixture-database-replaced", 1)
 		case !d.Loaded:
 			w.mustAdmin(dbDef, "LoadDatabase", &schema.LoadDatabaseRequest{Database: db}, &schema.LoadDatabaseResponse{})
 			fx.mu.Lock()
